@@ -88,6 +88,7 @@ fn hist_cfg_for(seed: u64, m: &HashMap<String, String>) -> hist::HistCfg {
         bias_compact: m.contains_key("compact-bias"),
         bias_reopen: m.contains_key("reopen-bias"),
         descriptors: m.contains_key("descriptors"),
+        walks: m.contains_key("walks"),
     }
 }
 
